@@ -237,6 +237,17 @@ def single_faults(ser, detached, rng, other_algs, sig_stride: int = 1, char_samp
                 tv.set_protected_obj(i, q)
                 return True
             yield ("b64.toggle-protected", "protected[%d].b64 toggled (re-encoded)" % i, fn)
+    if tv0.compact and not tv0.b64flag() and tv0.get("payload"):
+        # RFC 7797 attached form: the verifier is *also* handed a payload argument that is not the signed content
+        for how in ("other", "prefix", "empty-segment-kept"):
+            other = {"other": b"attacker-chosen content", "prefix": tv0.get("payload").encode("utf-8") + b"!", "empty-segment-kept": b"x"}[how]
+
+            def fn(tv, other=other):
+                if tv.detached == other:
+                    return False
+                tv.detached = other
+                return True
+            yield ("detached.conflicting-argument", "payload argument %r next to the attached payload" % other, fn)
     if tv0.compact:
         for how in ("drop-sig-seg", "dup-seg", "empty-sig", "empty-payload", "swap-hp"):
             def fn(tv, how=how):
